@@ -214,19 +214,33 @@ def table_o_shape(facts, rep, rule, w):
             continue
         okc = False
         shown = ""
-        for cb in inter.code_bodies(b):
+        def _time_terms(cb, actuals, depth=0):
+            """terms handed to filetime as the time, in cb and in private helpers it calls (formals replaced by actuals)"""
             trc = get_tracer(facts, cb)
             for s_ in inter.sites(cb):
                 if s_.path.startswith("filetime::") and s_.short.split("::")[-1] in ("set_file_mtime", "set_file_atime", "set_file_times") and len(s_.args) >= 2:
-                    tv = norm(trc.operand(s_.args[1]))
-                    shown = fmt(tv)[:60]
-                    x = tv
+                    x = norm(trc.operand(s_.args[1]))
                     while x[0] in ("okval", "await"):
                         x = x[1]
                     if x[0] == "call" and x[1] in ("From::from", "Into::into", "FileTime::from_system_time", "FileTime::from") and x[2]:
                         x = norm(x[2][0])
-                    # (norm() already erases From/Into: what is left must be the method's own time argument)
-                    okc = x[0] == "arg" and x[1] == 2
+                    if actuals is not None and x[0] == "arg":
+                        x = actuals[x[1]] if 0 <= x[1] < len(actuals) else ("unknown",)
+                    yield x
+                    continue
+                hb = inter.local_callee(s_) if depth < 2 else None
+                if hb is not None and hb.id != b.id and not (hb.impl and hb.impl["trait"]) and hb.vis != "pub":
+                    acts = [norm(trc.operand(a)) for a in s_.args]
+                    if actuals is not None:
+                        acts = [actuals[a[1]] if a[0] == "arg" and 0 <= a[1] < len(actuals) else a for a in acts]
+                    for hcb in inter.code_bodies(hb):
+                        for x in _time_terms(hcb, acts, depth + 1):
+                            yield x
+        for cb in inter.code_bodies(b):
+            for x in _time_terms(cb, None):
+                shown = fmt(x)[:60]
+                # (norm() already erases From/Into: what is left must be the method's own time argument)
+                okc = x[0] == "arg" and x[1] == 2
         n += 1
         rep.ob(rule, b.id, "%s: the time is converted with FileTime::from(time)" % op, okc, shown if okc else
                "the value handed to filetime is %s, not FileTime::from(<the time argument>): a hand-made conversion does not round-trip "
